@@ -29,7 +29,7 @@ theorem frame_log (s : Sys) (k j : Nat) (op : Op) (hjk : j ≠ k) :
     ((s.stepAt k op).1[j]?).map (·.ctx.log) = (s[j]?).map (·.ctx.log) := by
   rw [frame s k j op hjk]
 
-theorem stepAt_self (s : Sys) (k : Nat) (op : Op) (a : Arena) (ha : s[k]? = some a) :
+private theorem stepAt_self (s : Sys) (k : Nat) (op : Op) (a : Arena) (ha : s[k]? = some a) :
     (s.stepAt k op).1[k]? = some (a.step op).1 := by
   unfold Sys.stepAt
   simp only [ha]
